@@ -32,6 +32,7 @@ type Cfg struct {
 	// batched pool options (0 = rend defaults)
 	BatchSize        uint32 `json:"batch_size,omitempty"`
 	BatchDelayMicros uint32 `json:"batch_delay_us,omitempty"`
+	BatchEvalSec     uint32 `json:"batch_eval_s,omitempty"` // pool monitor interval (rend default 2 s)
 	GetEAbsolute     bool   `json:"gete_abs"`
 }
 
@@ -73,7 +74,7 @@ func handlerConst(kind, addr string, cfg Cfg) handlers.HandlerConst {
 	case "chunked":
 		return memcached.Chunked(addr)
 	case "batched":
-		return memcached.Batched(addr, batched.Opts{BatchSize: cfg.BatchSize, BatchDelayMicros: cfg.BatchDelayMicros})
+		return memcached.Batched(addr, batched.Opts{BatchSize: cfg.BatchSize, BatchDelayMicros: cfg.BatchDelayMicros, EvaluationIntervalSec: cfg.BatchEvalSec})
 	case "inmem":
 		return inmem.New
 	}
